@@ -351,6 +351,13 @@ class Compiler:
         self.asm.emit('set', rv, ('const', 0))
         sub.block(fn.body)
         self.asm.place(end)
+        if any(isinstance(n, ast.Raise) for n in ast.walk(fn)):
+            # an exception raised by the callee leaves the caller too (through the caller's own finally / with blocks)
+            lp, lc = self.asm.label('propagate'), self.asm.label('cont')
+            self.asm.emit('br', ('eq', ('loc', rv), ('const', RAISED)), lp, lc)
+            self.asm.place(lp)
+            self.do_return(('const', RAISED))
+            self.asm.place(lc)
         return ('loc', rv)
 
     # ---- statements ----------------------------------------------------------
